@@ -1149,7 +1149,12 @@ class GenericPlainRegistry(Generic[QuantityT, UnitT], metaclass=RegistryMeta):
                             self._suffixes[suffix],
                         )
                 else:
-                    for real_name in self._units_casei.get(name.lower(), ()):
+                    # Exact-case spelling first; sorted because set order varies
+                    # with hash randomization.
+                    for real_name in sorted(
+                        self._units_casei.get(name.lower(), ()),
+                        key=lambda n: (n != name, n),
+                    ):
                         yield (
                             self._prefixes[prefix].name,
                             self._units[real_name].name,
